@@ -80,7 +80,8 @@ def impl(case):
     xy = h.distribution_xy()
     if dist:
         xs, ys = xy
-        if list(xs) != [o for o, _ in dist] or any(not isinstance(y, float) or abs(y - float(p)) > TOL for y, (_, p) in zip(ys, dist)):
+        # "the same values as floats": the correctly rounded float of the exact probability, bit for bit
+        if list(xs) != [o for o, _ in dist] or any(not isinstance(y, float) or y != float(Fraction(c, T or 1)) for y, (_, c) in zip(ys, sorted(agg.items()))):
             flags.append("xy-mismatch")
     elif xy != ():
         flags.append("xy-nonempty")
@@ -167,7 +168,7 @@ def generate(rnd, tier, scale):
         if rnd.random() < 0.08:
             h = []
         if rnd.random() < 0.25:
-            h = gen.scale_h(h, rnd.choice([2, 3, 10]))
+            h = gen.scale_h(h, rnd.choice([2, 3, 10, 3**40, 7 * 10**30, 10**400]))
         r = rnd.random()
         if r < 0.75:
             mu = None
